@@ -84,5 +84,9 @@ def run(run_, tier):
     symla_systems.c04_obligations(run_, tier)
     # the sub-step equations use the derivative functions: the schemes are symplectic only if these are the gradients of one function each (C05)
     symla_systems.run_cases(run_, "c05_cases", keep=lambda oid: any(k in oid for k in ("dh1_dpos-is-gradient-of-h1", "dh2_dmom-is-gradient-of-h2", "dh2_dpos-is-gradient-of-h2")))
+    # ... incl. the SoftAbs metric class (gradient contracts of C11) and the state cache the derivative functions are reached through (C09)
+    from . import premises
+    premises.softabs_gradients(run_)
+    premises.cache_protocol(run_)
     bounded_numeric(run_)
     run_.notes.append(f"{n} exact flow / step cases")
